@@ -933,5 +933,17 @@ PROPS["C18"]["explanation"] += " (ANBOTH) an image's annotations are copied for 
 PROPS["C19"]["rules"] = PROPS["C19"]["rules"] + [rules_tools.rule_double_parsed_as_double, rules_tools.rule_grow_init_from_count]
 PROPS["C19"]["explanation"] += " (WIDEPARSE) nothing stored through a float64 pointer in hdfimport comes from a float32 local. (GROWINIT) see C18."
 
+# round 17
+PROPS["C05"]["rules"] = PROPS["C05"]["rules"] + [rules_coders.rule_coder_init_complete]
+PROPS["C05"]["explanation"] += " (INITALL) a coder's init routine assigns every running-state field its other routines read."
+for _p in ("C12", "C20"):
+    PROPS[_p]["rules"] = PROPS[_p]["rules"] + [rules_limits.rule_maxref_inclusive]
+    PROPS[_p]["explanation"] += " (MAXREFINCL) an enumeration of the reference range includes MAX_REF."
+for _p in ("C02", "C01"):
+    PROPS[_p]["rules"] = PROPS[_p]["rules"] + [rules_limits.rule_truncate_only_shrinks]
+    PROPS[_p]["explanation"] += " (TRUNCONLY) Htrunc rewrites the descriptor's length only under the single test that it shrinks."
+PROPS["C17"]["rules"] = PROPS["C17"]["rules"] + [(lambda ctx: rules_ann.rule_rewrite_reuses_element(ctx, files=("hdf/src/vgp.c",), floor=1))]
+PROPS["C17"]["explanation"] += " (REUSEOLD) Vdetach releases the old header element on flag tests only, so that the rewritten header always goes to new space."
+
 NOT_APPLICABLE = {}
 
